@@ -5,14 +5,15 @@ import random
 from harness import core, docgen, inputs, trees, xdoc
 
 GEN = ['gen_tables', 'gen_regex', 'gen_config', 'gen_escapes', 'gen_blockstart']
-THEOREMS = ['C05_block_starts_are_the_source', 'C05_list_markers_are_the_source', 'C05_closed_blocks_independent', 'C05_stable_blocks_independent', 'C05_any_blocks_independent', 'C05_closed_last_independent', 'C05_closed_last_hypotheses',
+THEOREMS = ['C05_last_block_closed_independent', 'C05_last_block_closed_hypotheses', 'C05_list_ran_off_is_last', 'C05_block_starts_are_the_source', 'C05_list_markers_are_the_source', 'C05_closed_blocks_independent', 'C05_stable_blocks_independent', 'C05_any_blocks_independent', 'C05_closed_last_independent', 'C05_closed_last_hypotheses',
             'C05_blank_lines_start_nothing', 'C05_line_numbers_shift', 'C05_blank_line_skipped', 'C05_bounded_pairs']
 TRUSTED = ['the parser model (tied by X-doc on A, B and A + blank + B)',
            'vm_compute for the bounded sweep of pairs']
-ASSUMPTIONS = ['C05_closed_last_independent states the law with the property\'s own hypothesis (A\'s last block is closed); it keeps two computable side conditions '
-               '(stable_run4): no top-level block of A is a link-definition block (excluded by the property) and every top-level LIST of A is ended by a line of A; '
-               'the flags for code / fence / HTML blocks are derived. How many of the oracle\'s pairs meet these hypotheses is measured by evaluating them in the '
-               'extracted model (coverage: pairs_inside_the_theorem). The full statement is also kernel-checked on 781 x 13 pairs and decided on the implementation by the oracle',
+ASSUMPTIONS = ['C05_last_block_closed_independent states the law with the property\'s own hypotheses and nothing else: the lines are Document\'s (each ends with its only newline), '
+               'A\'s last block is closed, no top-level block of A is a link-definition block (stable_run5; excluded by the property). The flags for code / fence / HTML blocks '
+               'AND for lists are derived (a list that ran off the end of A is followed by blank lines only: Proofs/ListEnds.v). How many of the oracle\'s pairs meet these '
+               'hypotheses is measured by evaluating them in the extracted model (coverage: hypotheses_on_A). The full statement is also kernel-checked on 781 x 13 pairs and '
+               'decided on the implementation by the oracle',
                'the theorem is about the block phase (structure and line numbers); with no link definitions in A or B the inline phase is a function of each '
                'block\'s own lines',
                'A is taken with a final newline; the separator is one empty line']
@@ -128,13 +129,15 @@ def run(ctx, only=None):
         okA = okA[:(1500 if ctx.quick() else 20000)]
         fl = core.model_map([[50, cid, a] for a, cid in okA])
         inside = sum(1 for f in fl if f[0] == 1 and f[1] == 1)
-        ctx.cov['hypotheses_on_A'] = {'texts_A_evaluated': len(okA), 'stable_run4_and_closed_last': inside,
+        inside5 = sum(1 for f in fl if f[4] == 1 and f[1] == 1 and f[5] == 1)
+        ctx.cov['hypotheses_on_A'] = {'texts_A_evaluated': len(okA), 'proper_lines_no_definition_block_and_closed_last': inside5,
+                                      'stable_run4_and_closed_last': inside,
                                       'stable_run3': sum(1 for f in fl if f[2] == 1), 'closed_run': sum(1 for f in fl if f[3] == 1)}
-        # the derivation itself, checked on data: whenever stable_run4 and closed_last hold, stable_run3 holds
+        # the derivations themselves, checked on data: whenever the hypotheses of the theorem hold, stable_run3 holds
         for (a, cid), f in zip(okA, fl):
-            if f[0] == 1 and f[1] == 1 and f[2] != 1:
+            if ((f[0] == 1 and f[1] == 1) or (f[4] == 1 and f[1] == 1 and f[5] == 1)) and f[2] != 1:
                 ctx.disagreements.append({'interface': 'model(flags)', 'input': {'A': a, 'token_set': xdoc.CFG[cid]},
-                                          'model': f, 'impl': 'closed_last_gives_flags says stable_run3 holds'})
+                                          'model': f, 'impl': 'closed_last_gives_flags(5) says stable_run3 holds'})
     ctx.count('distinct_nontrivial', nontriv)
     ctx.sample({'A': tricky_a[5], 'B': tricky_b[0], 'combined': tricky_a[5] + '\n' + tricky_b[0]})
     designed = [nl(a) + '\n' + b for a in tricky_a for b in tricky_b]
